@@ -362,6 +362,24 @@ impl WorkerTree {
             super::verif_hooks::verif_probe("external_dependency_restart");
             self.restart_work(index);
         }
+
+        // work that failed records no dependency on what it could not find (for
+        // example a required module that did not exist yet), so give it another
+        // chance whenever a file changes
+        let failed_indexes: Vec<_> = self
+            .graph
+            .node_indices()
+            .filter(|index| {
+                matches!(
+                    self.graph.node_weight(*index).map(|item| &item.status),
+                    Some(WorkStatus::Done(Err(_)))
+                )
+            })
+            .collect();
+
+        for index in failed_indexes {
+            self.restart_work(index);
+        }
     }
 
     /// Removes a source file from the worker tree.
